@@ -24,6 +24,23 @@ def poolVar (l : List Rat) : Rat :=
 def poolVarBessel (l : List Rat) : Rat :=
   (l.map (fun x => (x - poolMean l) * (x - poolMean l))).sum / ((l.length : Rat) - 1)
 
+/-! ## Which entries of a tensor belong to which coefficient; the normalisation formula -/
+
+/-- The frames of coefficient `i` of the normalised dimension `dim`: all entries of `x` whose
+`dim`-th coordinate is `i`, in row-major order of the remaining coordinates.  Stated on flat
+positions only (`unravel`), independent of the model's `transpose/flatten` chain. -/
+def coeffEntries (x : Tensor) (dim i : Nat) : List Rat :=
+  ((List.range x.numel).filter (fun k => (unravel x.shape k).getD dim 0 == i)).map (x.data.getD · 0)
+
+/-- The documented formula `y[…, i, …] = (x[…, i, …] − mean[i]) / max(std[i], eps)`, entry by
+entry: the output has the shape of `x`, and the entry at flat position `k` uses the statistics
+of the coefficient `i = (multi-index of k)[dim]`. -/
+def mvnSpec (x : Tensor) (dim : Nat) (mean std : List Rat) (eps : Rat) : Tensor :=
+  { shape := x.shape
+    data := (List.range x.numel).map (fun k =>
+      let i := (unravel x.shape k).getD dim 0
+      (x.data.getD k 0 - mean.getD i 0) / max (std.getD i 0) eps) }
+
 /-! ## Deltas -/
 
 /-- `Σ_{k=1..w} k · (e(t+k) − e(t−k))`. -/
@@ -46,18 +63,13 @@ def deltaRowSpec (mode : PadMode) (order w : Nat) (row : List Rat) : List (List 
   (List.range (order + 1)).map (fun u =>
     (List.range row.length).map (fun (t : Nat) => deltaSpec w (extAt mode row) u (t : Int)))
 
-/-- The whole output of `feat_deltas` from the index map: the output has the shape of `x`
-with a new axis of size `order+1` inserted at `dim` (stack) or with axis `dim` multiplied by
-`order+1` (concatenate, order-major); its entry at `(…, u, …)` is the order-`u` delta along
-`time_dim` of the 1-D signal through the remaining coordinates. -/
-def featDeltasSpec (x : Tensor) (dim timeDim : Int) (concatenate : Bool) (order w : Nat)
-    (mode : PadMode) : Option Tensor := do
-  if w < 1 then none
-  let D := x.shape.length
-  let td ← normDim timeDim D
-  let dm ← normDim dim (if concatenate then D else D + 1)
+/-- The output of `feat_deltas` as an index map (`td`, `dm` already normalised): the output has
+the shape of `x` with a new axis of size `order+1` inserted at `dm` (stack) or with axis `dm`
+multiplied by `order+1` (concatenate, order-major); its entry at `(…, u, …)` is the order-`u`
+delta along `td` of the 1-D signal through the remaining coordinates. -/
+def featDeltasIndexMap (x : Tensor) (td dm : Nat) (concatenate : Bool) (order w : Nat)
+    (mode : PadMode) : Tensor :=
   let T := x.shape.getD td 1
-  if x.numel ≠ 0 ∧ !(padLegal mode (w * order) T) then none
   let S := x.shape.getD dm 1
   let oshape :=
     if concatenate then x.shape.set dm (S * (order + 1))
@@ -68,7 +80,19 @@ def featDeltasSpec (x : Tensor) (dim timeDim : Int) (concatenate : Bool) (order 
     let idx := if concatenate then o.set dm (o.getD dm 0 % S) else o.eraseIdx dm
     let signal := (List.range T).map (fun i => x.data.getD (ravel x.shape (idx.set td i)) 0)
     deltaSpec w (extAt mode signal) u (idx.getD td 0 : Nat))
-  pure { shape := oshape, data := data }
+  { shape := oshape, data := data }
+
+/-- The whole of `feat_deltas`: the argument checks (width ≥ 1, `time_dim` and `dim` in range,
+a padding the mode allows for a non-empty input), then the index map. -/
+def featDeltasSpec (x : Tensor) (dim timeDim : Int) (concatenate : Bool) (order w : Nat)
+    (mode : PadMode) : Option Tensor := do
+  if w < 1 then none
+  let D := x.shape.length
+  let td ← normDim timeDim D
+  let dm ← normDim dim (if concatenate then D else D + 1)
+  let T := x.shape.getD td 1
+  if x.numel ≠ 0 ∧ !(padLegal mode (w * order) T) then none
+  pure (featDeltasIndexMap x td dm concatenate order w mode)
 
 /-! ## Returns -/
 
